@@ -57,6 +57,7 @@ func (in *Interp) floatCmp(op token.Token, a, b Float) *Term {
 
 func (in *Interp) equal(a, b Value) *Term {
 	tb := in.tb
+	a, b = in.force(a), in.force(b)
 	switch x := a.(type) {
 	case *Term:
 		y, ok := b.(*Term)
@@ -271,7 +272,7 @@ func (in *Interp) bytesToStr(v Value) *Term {
 	case []Value:
 		var parts []*Term
 		for _, e := range x {
-			parts = append(parts, in.byteToStr(e.(*Term)))
+			parts = append(parts, in.byteToStr(in.force(e).(*Term)))
 		}
 		return in.tb.Concat(parts...)
 	}
